@@ -200,6 +200,12 @@ class World:
                 e = local.get(op[1]) or self.events.get(op[1])
                 if e is not None:
                     await self._await(who, e)
+            elif k == 'recurse':  # ('recurse', bus, mode, maxdepth): self-recursive dispatch of the handler's own event type
+                d = getattr(cur, 'depth', 0)
+                if d < op[3]:
+                    e = self._disp(who, ('disp', op[1], 'R', op[2], {'depth': d + 1}), local, ctxn)
+                    if e is not None and op[2] == 'await':
+                        await self._await(who, e)
             elif k == 'redisp':
                 self._redisp(who, op, local)
             elif k == 'raise':
@@ -300,6 +306,7 @@ class World:
     def mkhandler(self, h):
         w, bus, hname, prog = self, h['bus'], h['name'], h['prog']
         kind = h.get('kind', 'async')
+        fname = h.get('fname', hname)  # the function's __name__ (two functions may share one)
 
         def entered(e):
             who = f'{bus}.{hname}({w.name_of(e)})'
@@ -342,8 +349,8 @@ class World:
 
         if kind in ('async', 'sync'):
             fn = body
-            fn.__name__ = hname
-            fn.__qualname__ = hname
+            fn.__name__ = fname
+            fn.__qualname__ = fname
         elif kind in ('amethod', 'method'):
             if kind == 'amethod':
                 async def meth(self_, e):
@@ -351,18 +358,18 @@ class World:
             else:
                 def meth(self_, e):
                     return body(e)
-            meth.__name__ = hname
-            cls = type('Svc_' + hname, (), {hname: meth})
+            meth.__name__ = fname
+            cls = type('Svc_' + hname, (), {fname: meth})
             inst = cls()
             self.keep.append(inst)
-            fn = getattr(inst, hname)
+            fn = getattr(inst, fname)
         elif kind == 'astatic':
             async def st(e):
                 return await body(e)
-            st.__name__ = hname
-            cls = type('St_' + hname, (), {hname: staticmethod(st)})
+            st.__name__ = fname
+            cls = type('St_' + hname, (), {fname: staticmethod(st)})
             self.keep.append(cls)
-            fn = getattr(cls, hname)
+            fn = getattr(cls, fname)
         else:
             raise RuntimeError(kind)
         self.keep.append(fn)
@@ -377,19 +384,21 @@ class World:
             b = HBus(name=name, parallel_handlers=cfg.get('parallel', False), max_history_size=cfg.get('hist', 50), **kw)
             b.world = self
             self.buses[name] = b
+        if self.scn.get('fwd_first'):
+            for a, b in self.scn.get('forwards', []):
+                self.buses[a].on('*', self.buses[b].dispatch)
         for h in self.scn['handlers']:
             fn = self.mkhandler(h)
-            pat = h['pat']
-            if pat == '*':
-                self.buses[h['bus']].on('*', fn)
-            elif pat.startswith('s:'):
-                self.buses[h['bus']].on(pat[2:], fn)
-            else:
-                self.buses[h['bus']].on(EVCLS[pat], fn)
-            if h.get('fwd_after'):
-                pass
-        for a, b in self.scn.get('forwards', []):
-            self.buses[a].on('*', self.buses[b].dispatch)
+            for pat in (h['pat'] if isinstance(h['pat'], list) else [h['pat']]):
+                if pat == '*':
+                    self.buses[h['bus']].on('*', fn)
+                elif pat.startswith('s:'):
+                    self.buses[h['bus']].on(pat[2:], fn)
+                else:
+                    self.buses[h['bus']].on(EVCLS[pat], fn)
+        if not self.scn.get('fwd_first'):
+            for a, b in self.scn.get('forwards', []):
+                self.buses[a].on('*', self.buses[b].dispatch)
 
     async def main(self):
         import warnings
@@ -409,6 +418,7 @@ class World:
             self.phase = 'settle'
             await self.settle(self.scn.get('settle', 1.0))
             self.phase = 'final'
+            self.extra['live_envwaits'] = [w[0] for w in self.loop.envwaits if not w[1].done() and not w[2]]
             self.rec('final')
 
     async def _actor(self, who, prog):
@@ -467,7 +477,7 @@ class World:
             final = self.snapshot()
         except BaseException as ex:  # pragma: no cover
             final = dict(events={}, buses={}, snapshot_error=repr(ex))
-        log = self.log
+        log = list(self.log)  # teardown may still append to self.log
         return dict(log=log, final=final, verdict=verdict, phase=self.phase, extra=self.extra,
                     trace_key=(tuple(r[2:] for r in log), verdict[0]))
 
